@@ -16,9 +16,12 @@ use std::sync::Arc;
 use std::task::Poll;
 
 #[derive(Clone, Copy, Debug, PartialEq, Eq)]
-pub enum Op { Create, Send, Recv(u8), RecvAll(u8), Drop(u8), CancelAll }
+pub enum Op { Create, Send, Recv(u8), RecvAll(u8), Drop(u8), CancelAll,
+    /// cancel_all_streams() only: the listeners stay (their stream objects are not dropped), later sends still reach their queues; each one yields what is
+    /// buffered when polled and answers end-of-stream once it finds nothing
+    CancelOnly }
 
-struct Live { s: Box<dyn Strm>, expect: VecDeque<u64>, born_after: u64 }
+struct Live { s: Box<dyn Strm>, expect: VecDeque<u64>, born_after: u64, cancelled: bool, ended: bool }
 
 pub struct Hist { qlen: Vec<usize>, ch: Arc<dyn Chan>, kind: Kind, n: usize, m: usize, live: Vec<Live>, next_id: u64, pub problems: Vec<(String, String)>, pub steps: u64, pub recycled: u64, created: u64, pub stale_seen: bool }
 
@@ -32,8 +35,9 @@ impl Hist {
         match op {
             Op::Create => self.live.len() < self.m,
             Op::Send => self.kind.is_multi() && !(self.kind.never_rejects() && self.live.iter().any(|l| self.qlen[l.s.id() as usize] + 1 >= self.n)),     // (the real queue of a recycled id may still hold what an earlier listener left behind: the Arc kinds would wait forever on a full one)
-            Op::Recv(i) | Op::RecvAll(i) | Op::Drop(i) => (i as usize) < self.live.len(),
-            Op::CancelAll => !self.live.is_empty(),
+            Op::Recv(i) | Op::RecvAll(i) => (i as usize) < self.live.len() && !self.live[i as usize].ended,
+            Op::Drop(i) => (i as usize) < self.live.len(),
+            Op::CancelAll | Op::CancelOnly => !self.live.is_empty(),
         }
     }
     fn check_running(&mut self) { let r = self.ch.running(); if r as usize != self.live.len() { let l = self.live.len(); self.problem("running_count", format!("running_streams_count() is {r} with {l} live stream(s)")) } }
@@ -65,7 +69,7 @@ impl Hist {
             Op::Create => {
                 let ch = self.ch.clone();
                 match std::panic::catch_unwind(std::panic::AssertUnwindSafe(move || ch.create_stream())) {
-                    Ok(s) => { self.created += 1; if self.created > self.m as u64 { self.recycled += 1 } let b = self.next_id - 1; self.live.push(Live { s, expect: VecDeque::new(), born_after: b }) }
+                    Ok(s) => { self.created += 1; if self.created > self.m as u64 { self.recycled += 1 } let b = self.next_id - 1; self.live.push(Live { s, expect: VecDeque::new(), born_after: b, cancelled: false, ended: false }) }
                     Err(_) => { let l = self.live.len(); let m = self.m; self.problem("ids_exhausted", format!("creating a stream with {l} of MAX_STREAMS = {m} streams alive panicked")) }
                 }
             }
@@ -73,8 +77,9 @@ impl Hist {
                 let id = self.next_id; self.next_id += 1;
                 if send_via(&*self.ch, Entry::Send, id) == SendRes::Ok { for l in self.live.iter_mut() { l.expect.push_back(id); self.qlen[l.s.id() as usize] += 1 } }
             }
-            Op::Recv(i) => { self.recv(i as usize, false); }
-            Op::RecvAll(i) => { let mut g = 0; while self.recv(i as usize, false) == Some(true) && g < 100_000 { g += 1 } }
+            Op::Recv(i) => { let c = self.live[i as usize].cancelled; if self.recv(i as usize, c).is_none() { self.live[i as usize].ended = true } }
+            Op::RecvAll(i) => { let c = self.live[i as usize].cancelled; let mut g = 0; loop { match self.recv(i as usize, c) { Some(true) if g < 100_000 => g += 1, None => { self.live[i as usize].ended = true; break } _ => break } } }
+            Op::CancelOnly => { self.ch.cancel_all(); for l in self.live.iter_mut() { l.cancelled = true } }
             Op::Drop(i) => { let l = self.live.remove(i as usize); drop(l) }
             Op::CancelAll => {
                 self.ch.cancel_all();
@@ -122,7 +127,7 @@ fn random(args: &Args, acc: &mut Acc, seed: u64, verbose: bool) {
     let len = 5 + rng.below(if args.thorough() { 2000 } else { 400 }) as usize;
     let mut script = Vec::new();
     for _ in 0..len {
-        let op = match rng.below(100) { 0..=17 => Op::Create, 18..=49 => Op::Send, 50..=69 => Op::Recv(rng.below(m as u64) as u8), 70..=76 => Op::RecvAll(rng.below(m as u64) as u8), 77..=96 => Op::Drop(rng.below(m as u64) as u8), _ => Op::CancelAll };
+        let op = match rng.below(100) { 0..=17 => Op::Create, 18..=49 => Op::Send, 50..=69 => Op::Recv(rng.below(m as u64) as u8), 70..=76 => Op::RecvAll(rng.below(m as u64) as u8), 77..=94 => Op::Drop(rng.below(m as u64) as u8), 95..=96 => Op::CancelOnly, _ => Op::CancelAll };
         if !h.legal(op) { continue }
         script.push(op); h.step(op);
         if !h.problems.is_empty() { break }
@@ -132,7 +137,7 @@ fn random(args: &Args, acc: &mut Acc, seed: u64, verbose: bool) {
     acc.evaluations += 1;
     acc.count(&format!("histories[{}]", kind.name()), 1); acc.count("history_steps", steps); acc.count("stream_ids_recycled", recycled);
     if origin.map(|o| o > u32::MAX - 64).unwrap_or(false) { acc.count("histories_with_the_id_fifo_crossing_the_32bit_wrap", 1) }
-    if recycled > 0 { acc.nontrivial(script.iter().fold(seed & 0xF, |hh, o| mix(hh, match o { Op::Create => 1, Op::Send => 2, Op::Recv(i) => 10 + *i as u64, Op::RecvAll(i) => 20 + *i as u64, Op::Drop(i) => 30 + *i as u64, Op::CancelAll => 40 })) ^ kind as u64) }
+    if recycled > 0 { acc.nontrivial(script.iter().fold(seed & 0xF, |hh, o| mix(hh, match o { Op::Create => 1, Op::Send => 2, Op::Recv(i) => 10 + *i as u64, Op::RecvAll(i) => 20 + *i as u64, Op::Drop(i) => 30 + *i as u64, Op::CancelAll => 40, Op::CancelOnly => 41 })) ^ kind as u64) }
     acc.sample(2, || J::obj().with("kind", J::s(kind.name())).with("M", J::i(m as i64)).with("history_head", J::s(format!("{:?}", &script[..script.len().min(30)]))));
     if !problems.is_empty() { report(args, acc, seed, verbose, kind, n, m, origin, &script, problems, "random") }
 }
